@@ -152,27 +152,31 @@ fn main() {
                     // the record itself
                     let with_acc = fam == "hist" || fam == "acc";
                     // execute the cases on all cores; the order of the parts is preserved
-                    let nthreads = std::thread::available_parallelism().map(|n| n.get()).unwrap_or(4).min(16);
-                    let chunk = (cs.len() + nthreads - 1) / nthreads.max(1);
-                    let mut parts: Vec<String> = Vec::with_capacity(cs.len());
+                    // (thread t runs cases t, t+n, t+2n, …: neighbouring cases, which use different
+                    // key sets and key types, run at the same time, as several nodes in one process do)
+                    let nthreads = std::thread::available_parallelism().map(|n| n.get()).unwrap_or(4).clamp(4, 16);
+                    let mut parts: Vec<String> = vec![String::new(); cs.len()];
                     std::thread::scope(|sc| {
-                        let handles: Vec<_> = cs
-                            .chunks(chunk.max(1))
-                            .map(|group| {
+                        let cs = &cs;
+                        let handles: Vec<_> = (0..nthreads)
+                            .map(|t| {
                                 sc.spawn(move || {
-                                    group
-                                        .iter()
-                                        .map(|c| {
-                                            let mut s = String::new();
-                                            exec_any(c, &mut s, with_acc);
-                                            s
-                                        })
-                                        .collect::<Vec<String>>()
+                                    let mut mine: Vec<(usize, String)> = Vec::new();
+                                    let mut i = t;
+                                    while i < cs.len() {
+                                        let mut s = String::new();
+                                        exec_any(&cs[i], &mut s, with_acc);
+                                        mine.push((i, s));
+                                        i += nthreads;
+                                    }
+                                    mine
                                 })
                             })
                             .collect();
                         for h in handles {
-                            parts.extend(h.join().expect("worker thread"));
+                            for (i, s) in h.join().expect("worker thread") {
+                                parts[i] = s;
+                            }
                         }
                     });
                     parts
